@@ -12,12 +12,13 @@ __doc__ =  "Utility methods for working with indent-based markup languages like 
 
 
 class IndentWalkState(WalkState):
-    __slots__ = ('options')
+    __slots__ = ('options', 'after_head')
 
 
 def indent_format(abbr: Abbreviation, config: Config, options={}):
     state = IndentWalkState(config)
     state.options = options
+    state.after_head = False
     walk(abbr, element, state)
     return state.out.value
 
@@ -41,6 +42,11 @@ def element(node: AbbreviationNode, index: int, items: list, state: IndentWalkSt
 
     push_primary_attributes(primary, state)
     push_secondary_attributes(list(filter(should_output_attribute, secondary)), state)
+
+    if node.name or node.attributes:
+        # Output now ends with an element head: the text that follows
+        # (even text of another, text-only node) must not run into it
+        state.after_head = True
 
     if node.self_closing and not node.value and not node.children:
         if state.options['selfClose']:
@@ -126,9 +132,10 @@ def push_value(node: AbbreviationNode, state: IndentWalkState):
     options = state.options
 
     if len(lines) == 1:
-        if node.name or node.attributes:
+        if node.name or node.attributes or state.after_head:
             out.push(' ')
         push_tokens(value, state)
+        state.after_head = False
     else:
         # We should format multi-line value with terminating `|` character
         # and same line length
@@ -145,6 +152,7 @@ def push_value(node: AbbreviationNode, state: IndentWalkState):
                 max_length = l
 
         # Output each line, padded to max length
+        state.after_head = False
         out.level += 1
         for i, line in enumerate(lines):
             out.push_newline(True)
